@@ -173,10 +173,16 @@ def run(ctx):
     # PathList: words only, in order
     f = ctx.fn("<darling_core::util::path_list::PathList as %s>::from_list" % FM)
     if f:
-        pushes = ctx.find_calls(f, r"^alloc::vec::Vec::<T, A>::push$")
-        ok = len(pushes) == 1 and re.search(r"clone\(.*as Path\)\.0\)$", ctx.expr(f, pushes[0][1]["args"][1])) is not None
-        ctx.ob("C13.G.path-list-clones-words", f.key, "paths.push(path.clone())", ok, "%s" % [ctx.expr(f, t["args"][1])[:160] for _, t in pushes])
-        errs = ctx.find_calls(f, r"^darling_core::error::Error::unexpected_type$")
+        # the element kept for a word item: pushed in a loop, or the Ok value of a per-item closure
+        kept = [ctx.expr(f, t["args"][1]) for _, t in ctx.find_calls(f, r"^alloc::vec::Vec::<T, A>::push$")]
+        for c in ctx.closures_of(f):
+            for conds, v in resalg.cases(ctx, c):
+                m = re.match(r"^core::result::Result::Ok\{(.*)\}$", v)
+                if m:
+                    kept.append(m.group(1))
+        ok = len(kept) == 1 and re.search(r"clone\(.*as Path\)\.0\)$", kept[0]) is not None
+        ctx.ob("C13.G.path-list-clones-words", f.key, "paths.push(path.clone())", ok, "%s" % [k[:160] for k in kept])
+        errs = ctx.find_calls_deep(f, r"^darling_core::error::Error::unexpected_type$")
         ctx.ob("C13.G.path-list-rejects-non-words", f.key, "non-word item => error", len(errs) == 1, "%d" % len(errs))
     return ctx.finish(
         explanation="Sibling agreement over %d from_expr, %d from_value and %d from_string overrides of syntax-valued types, %d literal kinds, the expression helpers and PathList." % (n_expr, n_val, n_str, n_lit),
